@@ -7,6 +7,25 @@ theorem step_flags_mono (c : Cfg) (s s' : State) (a : Act) (hs : step c s a = so
     (s'.canceled = false → s.canceled = false) ∧ (s'.timedOut = false → s.timedOut = false) := by
   explode_step a hs
 
+/-- `ran` (the worker's `executed` flag) in runs that have not been stopped: it is set as soon as the
+    worker has passed `execStart`, and a worker that reaches `tail` still labelled `running` got there
+    through an execution (the other way into `tail` with `running` is `check` under a stop) -/
+def NodeRan (s : State) (j : Nat) : Prop :=
+  s.canceled = false →
+    (((s.nd j).pc = .exec ∨ (s.nd j).pc = .wErr ∨ (s.nd j).pc = .wTimeout ∨ (s.nd j).pc = .retrySleep) →
+        (s.nd j).ran = true) ∧
+    ((s.nd j).pc = .tail → (s.nd j).status = .running → (s.nd j).ran = true)
+
+theorem inv_ran (c : Cfg) (hn : NoRep c) (s : State) (hr : Reach c s) : ∀ j, NodeRan s j := by
+  induction hr with
+  | init => intro j; simp [init, NodeRan]
+  | step a hr hs ih =>
+    intro j
+    have hae := aePc_norep c hn
+    have hN := inv_none_idle c hn _ hr
+    simp only [NodeRan] at ih ⊢
+    explode_step a hs <;> grind
+
 /-- per-node facts of runs that have not been stopped (so far) -/
 def NodeLive (s : State) (j : Nat) : Prop :=
   (s.canceled = false → (s.nd j).status ≠ .running →
@@ -24,7 +43,8 @@ theorem inv_live (c : Cfg) (hn : NoRep c) (s : State) (hr : Reach c s) : ∀ j, 
     have hR := isReady_true c
     have hR2 := isReady_label_cases c
     have hT := fun j => (inv_node c hn _ hr j).2.2.2.1
-    simp only [NodeLive] at ih ⊢
+    have hE := inv_ran c hn _ hr
+    simp only [NodeLive, NodeRan] at ih hE ⊢
     explode_step a hs <;> grind
 
 /-- (B) in an unstopped run an active worker's node is `running` -/
